@@ -132,9 +132,9 @@ class Lattice:
 def lattice_for(model, mode):
     key = ("lat", repr(model["reactions"]), repr(model["species"]), mode)
     if key not in _cache:
-        _cache[key] = Lattice(generator_columns(model, mode))
         if len(_cache) > 4000:
             _cache.clear()
+        _cache[key] = Lattice(generator_columns(model, mode))
     return _cache[key]
 
 
